@@ -134,6 +134,32 @@ def _confirm_hang(mod_name, unit, inputs, limit_s=20):
         return True
 
 
+def _confirm_cost(mod_name, unit, inputs, limit_s=20, as_bytes=1536 << 20):
+    """re-run the body on the REAL package with these inputs in a subprocess whose address space is
+    limited; True if it runs out of memory or does not finish (a message of under a hundred octets
+    that needs more than 1.5 GiB or 20 s)"""
+    import subprocess
+
+    payload = json.dumps({"mod": mod_name, "shape": unit["shape"], "inputs": H.jsonable(inputs)})
+    code = (
+        "import sys, json, resource; sys.path.insert(0, %r)\n"
+        "from sx import runner, harness as H\n"
+        "d = json.loads(sys.stdin.read()); mod = __import__(d['mod'], fromlist=['*'])\n"
+        "_, real = runner._libs()\n"
+        "resource.setrlimit(resource.RLIMIT_AS, (%d, %d))\n"
+        "try:\n"
+        "    r = H.run_real(mod.body, real, d['shape'], H.unjson(d['inputs']))\n"
+        "except MemoryError:\n"
+        "    print('SX-COST MemoryError'); raise SystemExit(0)\n"
+        "print('SX-COST', repr(r)[:4000])\n" % (VERIF, as_bytes, as_bytes)
+    )
+    try:
+        out = subprocess.run([sys.executable, "-c", code], input=payload, text=True, capture_output=True, timeout=limit_s)
+    except subprocess.TimeoutExpired:
+        return True
+    return "MemoryError" in out.stdout or "MemoryError" in out.stderr or out.returncode < 0
+
+
 def _run_unit(args, box=None):
     """Explore one unit (one shape) exhaustively.  Runs in a worker process."""
     mod_name, unit, opts = args
@@ -238,6 +264,13 @@ def _run_unit(args, box=None):
                 )
         if eng.partial and not res["violations"] and not res["engine_faults"]:
             res["inconclusive"] = f"hunt mode: {eng.partial} has no model; its symbolic arguments were pinned to palette values, no violation found there, the other values are not covered"
+        for inp in eng.costs[:3]:
+            if inp is not None and _confirm_cost(mod_name, unit, inp):
+                res["violations"].append({"sig": "big-integer-size-chosen-by-input", "label": "big-integer-size-chosen-by-input", "detail": None, "inputs": H.jsonable(inp), "confirmed": True, "via": "cost-obligation+subprocess"})
+                break
+        else:
+            if eng.costs:
+                res["inconclusive"] = f"{len(eng.costs)} path(s) shift by an input-chosen amount above 2**20 bits; the real package survived the witness within 1.5 GiB / 20 s"
         for inp in eng.timeouts[:3]:
             if inp is not None and _confirm_hang(mod_name, unit, inp):
                 res["violations"].append({"sig": "call-does-not-return", "label": "call-does-not-return", "detail": None, "inputs": H.jsonable(inp), "confirmed": True, "via": "watchdog+subprocess"})
@@ -265,6 +298,13 @@ def replay_file(mod, path):
         r = json.load(fh)
     if "shape" not in r and hasattr(mod, "replay"):
         return mod.replay(r)
+    if r.get("signature") in ("big-integer-size-chosen-by-input", "call-does-not-return"):
+        # resource witnesses: run on the real package in a subprocess (address-space / time limit)
+        unit = {"shape": r["shape"]}
+        inp = H.unjson(r["inputs"])
+        bad = _confirm_cost(mod.__name__, unit, inp) if r["signature"].startswith("big") else _confirm_hang(mod.__name__, unit, inp)
+        print(json.dumps({"signature": r["signature"], "reproduced": bad}))
+        return 1 if bad else 0
     _, real = _libs()
     fails, obs, err = H.run_real(mod.body, real, r["shape"], H.unjson(r["inputs"]))
     print(json.dumps({"failures": fails, "error": err, "observations": H.jsonable([(k, H.plain(v)) for k, v in obs])}, indent=1, default=repr))
